@@ -178,39 +178,77 @@ Proof.
   cbn. intros H. apply andb_prop in H as [H1 H2]. split; auto. destruct (lookup l x); [discriminate|reflexivity].
 Qed.
 
-Lemma pcollect_spec g iv : forall m acc ks,
-  nodup_keys m = true -> pcollect g iv m acc = Ok ks ->
-  forall x, mem x ks = match lookup m x with
-                       | Some e => existsb (fun y => mem y iv) (vars e)
-                       | None => mem x acc
-                       end.
+Lemma lookup_dict_set {A} (d : list (ident * A)) n v x :
+  lookup (dict_set d n v) x = if N.eqb n x then Some v else lookup d x.
 Proof.
-  induction m as [|[p e] m IH]; intros acc ks Hnd H x.
-  - cbn in H. injection H as <-. reflexivity.
-  - apply nodup_keys_cons in Hnd as [Hp Hnd]. cbn [pcollect] in H. cbn [lookup].
-    destruct (existsb (fun y => mem y iv) (vars e)) eqn:Ed.
-    + destruct (pfold g _ []); [|discriminate].
-      specialize (IH _ _ Hnd H x).
-      destruct (N.eqb p x) eqn:Epx.
-      * apply N.eqb_eq in Epx; subst x. rewrite Hp in IH. rewrite IH, Ed.
-        destruct (mem p acc) eqn:Em; [exact Em|]. rewrite mem_app, mem_cons, N.eqb_refl. cbn. apply orb_true_r.
-      * destruct (lookup m x); auto. rewrite IH.
-        destruct (mem p acc); [reflexivity|]. rewrite mem_app, mem_cons. rewrite (N.eqb_sym x p), Epx. cbn.
-        now rewrite orb_false_r.
-    + specialize (IH _ _ Hnd H x).
-      destruct (N.eqb p x) eqn:Epx.
-      * apply N.eqb_eq in Epx; subst x. rewrite Hp in IH. rewrite IH, Ed, mem_removeN, N.eqb_refl. cbn.
-        apply andb_false_r.
-      * destruct (lookup m x); auto. rewrite IH, mem_removeN, (N.eqb_sym x p), Epx. cbn. apply andb_true_r.
+  induction d as [|[y a] d IH]; cbn.
+  - reflexivity.
+  - destruct (N.eqb y n) eqn:Eyn; cbn.
+    + apply N.eqb_eq in Eyn; subst y. destruct (N.eqb n x); reflexivity.
+    + rewrite IH. destruct (N.eqb y x) eqn:Eyx; auto.
+      destruct (N.eqb n x) eqn:Enx; auto.
+      apply N.eqb_eq in Eyx, Enx. subst. rewrite N.eqb_refl in Eyn. discriminate.
 Qed.
 
-Definition pvol_joint :=
-  fix go (l : list (ident * scope)) (acc : list ident) : result (list ident) :=
+Lemma lookup_remove_key {A} (d : list (ident * A)) n x :
+  lookup (remove_key n d) x = if N.eqb n x then None else lookup d x.
+Proof.
+  induction d as [|[y a] d IH]; cbn.
+  - now destruct (N.eqb n x).
+  - destruct (N.eqb y n) eqn:Eyn; cbn.
+    + apply N.eqb_eq in Eyn; subst y. fold (remove_key n d). rewrite IH. destruct (N.eqb n x); reflexivity.
+    + fold (remove_key n d). rewrite IH. destruct (N.eqb y x) eqn:Eyx; auto. destruct (N.eqb n x) eqn:Enx; auto.
+      apply N.eqb_eq in Eyx, Enx. subst. rewrite N.eqb_refl in Eyn. discriminate.
+Qed.
+
+Lemma lookup_map_self {A} (f : ident -> A) l x :
+  lookup (map (fun v => (v, f v)) l) x = if mem x l then Some (f x) else None.
+Proof.
+  induction l as [|y l IH]; [reflexivity|]. cbn [map lookup]. rewrite mem_cons, (N.eqb_sym x y).
+  destruct (N.eqb y x) eqn:E; cbn [orb]; auto. apply N.eqb_eq in E. now subst.
+Qed.
+
+Definition nonvol_vars (iv : list (ident * expr)) (e : expr) : list ident :=
+  filter (fun y => negb (is_some (lookup iv y))) (vars e).
+Definition dep_expr (iv : list (ident * expr)) (e : expr) : bool :=
+  existsb (fun y => is_some (lookup iv y)) (vars e).
+
+(* the dictionary built by the loop of _collect_volatile_parameters *)
+Lemma pcollect_spec g iv : forall m acc ve,
+  nodup_keys m = true -> pcollect g iv m acc = Ok ve ->
+  forall x, match lookup m x with
+            | Some e =>
+                if dep_expr iv e
+                then exists env, pfold g (nonvol_vars iv e) [] = Ok env
+                                 /\ lookup ve x = Some (subst (vol_subst iv env) e)
+                else lookup ve x = None
+            | None => lookup ve x = lookup acc x
+            end.
+Proof.
+  induction m as [|[p e] m IH]; intros acc ve Hnd H x.
+  - cbn in H. injection H as <-. reflexivity.
+  - apply nodup_keys_cons in Hnd as [Hp Hnd]. cbn [pcollect] in H. cbn [lookup].
+    fold (dep_expr iv e) in H. fold (nonvol_vars iv e) in H.
+    destruct (dep_expr iv e) eqn:Ed.
+    + destruct (pfold g (nonvol_vars iv e) []) as [env|] eqn:Ef; [|discriminate].
+      specialize (IH _ _ Hnd H x).
+      destruct (N.eqb p x) eqn:Epx.
+      * apply N.eqb_eq in Epx; subst x. rewrite Hp in IH. rewrite Ed. exists env. split; [exact Ef|].
+        rewrite IH, lookup_dict_set, N.eqb_refl. reflexivity.
+      * destruct (lookup m x); auto. rewrite IH, lookup_dict_set, Epx. reflexivity.
+    + specialize (IH _ _ Hnd H x).
+      destruct (N.eqb p x) eqn:Epx.
+      * apply N.eqb_eq in Epx; subst x. rewrite Hp in IH. rewrite Ed, IH, lookup_remove_key, N.eqb_refl. reflexivity.
+      * destruct (lookup m x); auto. rewrite IH, lookup_remove_key, Epx. reflexivity.
+Qed.
+
+Definition pvolx_joint :=
+  fix go (l : list (ident * scope)) (acc : list (ident * expr)) : result (list (ident * expr)) :=
     match l with
     | [] => Ok acc
     | (x, sub) :: l' =>
-        match pvol sub with
-        | Ok iv => go l' (if mem x iv then acc ++ [x] else acc)
+        match pvolx sub with
+        | Ok iv => go l' (match lookup iv x with Some e => dict_set acc x e | None => acc end)
         | Err e => Err e
         end
     end.
@@ -227,39 +265,51 @@ Proof.
   induction l as [|[y sub] l IH]; [reflexivity|]. cbn. destruct (N.eqb y x); [discriminate|auto].
 Qed.
 
-Lemma pvol_depends : forall s, wf_scope s = true -> forall ks, pvol s = Ok ks ->
-  forall x, mem x ks = depends_on_volatile s x.
+Lemma pvolx_depends : forall s, wf_scope s = true -> forall ve, pvolx s = Ok ve ->
+  forall x, is_some (lookup ve x) = depends_on_volatile s x.
 Proof.
-  induction s using scope_ind'; intros Hwf ks Hv x.
-  - cbn in Hv. injection Hv as <-. cbn. apply mem_nodupN.
+  induction s using scope_ind'; intros Hwf ve Hv x.
+  - cbn in Hv. injection Hv as <-. cbn. rewrite lookup_map_self, mem_nodupN. now destruct (mem x vl).
   - cbn [wf_scope] in Hwf. apply andb_prop in Hwf as [Hwo Hwm].
-    cbn [pvol] in Hv. destruct (pvol s) as [iv|] eqn:Ei; [|discriminate].
+    cbn [pvolx] in Hv. destruct (pvolx s) as [iv|] eqn:Ei; [|discriminate].
     specialize (IHs Hwo iv eq_refl).
-    assert (forall e, existsb (fun y => mem y iv) (vars e) = existsb (depends_on_volatile s) (free_vars e)) as Hex.
-    { intros e. unfold vars. rewrite existsb_nodupN. apply existsb_ext'. exact IHs. }
+    assert (forall e, dep_expr iv e = existsb (depends_on_volatile s) (free_vars e)) as Hex.
+    { intros e. unfold dep_expr, vars. rewrite existsb_nodupN. apply existsb_ext'. exact IHs. }
     cbn [depends_on_volatile].
     destruct iv as [|a r].
-    + injection Hv as <-. destruct (lookup m x).
-      * rewrite <- Hex. induction (vars e); cbn; auto.
+    + injection Hv as <-. cbn [lookup is_some]. destruct (lookup m x).
+      * rewrite <- Hex. unfold dep_expr. induction (vars e); cbn; auto.
       * apply IHs.
-    + rewrite (pcollect_spec _ _ _ _ _ Hwm Hv x). destruct (lookup m x); auto.
-  - cbn in Hv. destruct (pvol s) as [iv|] eqn:Ei; [|discriminate]. cbn in Hv. injection Hv as <-.
-    cbn [depends_on_volatile]. rewrite mem_removeN, (IHs Hwf iv eq_refl).
-    destruct (N.eqb x n); cbn; auto using andb_false_r, andb_true_r.
+    + pose proof (pcollect_spec _ _ _ _ _ Hwm Hv x) as Hs. destruct (lookup m x) as [e|].
+      * rewrite <- Hex. destruct (dep_expr (a :: r) e).
+        -- destruct Hs as [env [_ ->]]. reflexivity.
+        -- now rewrite Hs.
+      * rewrite Hs. apply IHs.
+  - cbn in Hv. destruct (pvolx s) as [iv|] eqn:Ei; [|discriminate]. cbn in Hv. injection Hv as <-.
+    cbn [depends_on_volatile]. rewrite lookup_remove_key, (N.eqb_sym x n). destruct (N.eqb n x); [reflexivity|].
+    apply (IHs Hwf iv eq_refl).
   - cbn [wf_scope] in Hwf. apply andb_prop in Hwf as [Hnd Hwl].
-    change (pvol (SJoint l)) with (pvol_joint l []) in Hv.
+    change (pvolx (SJoint l)) with (pvolx_joint l []) in Hv.
     change (depends_on_volatile (SJoint l) x) with (dep_joint x l).
-    assert (forall acc ks, pvol_joint l acc = Ok ks -> mem x ks = mem x acc || dep_joint x l) as Hl.
-    { clear Hv ks. induction H as [|[y sub] l Hs Hl IH]; intros acc ks Hv.
+    assert (forall acc ve, pvolx_joint l acc = Ok ve ->
+              is_some (lookup ve x) = is_some (lookup acc x) || dep_joint x l) as Hl.
+    { clear Hv ve. induction H as [|[y sub] l Hs Hl IH]; intros acc ve Hv.
       - cbn in Hv. injection Hv as <-. cbn. now rewrite orb_false_r.
       - apply nodup_keys_cons in Hnd as [Hy Hnd]. cbn [forallb snd] in Hwl. apply andb_prop in Hwl as [Hws Hwl].
-        cbn [pvol_joint] in Hv. destruct (pvol sub) as [iv|] eqn:Ei; [|discriminate].
+        cbn [pvolx_joint] in Hv. destruct (pvolx sub) as [iv|] eqn:Ei; [|discriminate].
         cbn [snd] in Hs. specialize (Hs Hws iv Ei).
         rewrite (IH Hnd Hwl _ _ Hv). cbn [dep_joint].
         destruct (N.eqb y x) eqn:Eyx.
         + apply N.eqb_eq in Eyx; subst y. rewrite (dep_joint_none _ _ Hy), orb_false_r, <- Hs.
-          destruct (mem x iv); [|now rewrite orb_false_r]. rewrite mem_app, mem_cons, N.eqb_refl. cbn. now rewrite !orb_true_r.
-        + destruct (mem y iv); [|reflexivity]. rewrite mem_app, mem_cons, (N.eqb_sym x y), Eyx. cbn.
-          now rewrite orb_false_r. }
-    rewrite (Hl [] ks Hv). reflexivity.
+          destruct (lookup iv x); [|now rewrite orb_false_r]. rewrite lookup_dict_set, N.eqb_refl. cbn.
+          now rewrite orb_true_r.
+        + destruct (lookup iv y); [|reflexivity]. rewrite lookup_dict_set, Eyx. reflexivity. }
+    rewrite (Hl [] ve Hv). reflexivity.
+Qed.
+
+Lemma pvol_depends : forall s, wf_scope s = true -> forall ks, pvol s = Ok ks ->
+  forall x, mem x ks = depends_on_volatile s x.
+Proof.
+  intros s Hwf ks Hv x. unfold pvol in Hv. destruct (pvolx s) as [ve|] eqn:Ev; [|discriminate].
+  cbn in Hv. injection Hv as <-. rewrite <- lookup_mem. exact (pvolx_depends s Hwf ve Ev x).
 Qed.
